@@ -1,6 +1,18 @@
 package sim
 
-import "testing"
+import (
+	"fmt"
+	"net/http"
+	"path/filepath"
+	"regexp"
+	"sort"
+	"strconv"
+	"strings"
+
+	"github.com/internetarchive/Zeno/internal/pkg/reactor"
+	"github.com/internetarchive/Zeno/pkg/models"
+	"github.com/internetarchive/Zeno/verifsim/scen"
+)
 
 func engineOf(prop string, sc *Scenario) string {
 	if sc != nil && sc.Extra != nil && sc.Extra["engine"] == "comp" {
@@ -9,6 +21,636 @@ func engineOf(prop string, sc *Scenario) string {
 	return "e2e"
 }
 
-func oraclesFor(r *e2e) []Oracle { return nil }
+// IdleOracle is told when the pipeline first becomes idle (queue drained).
+type IdleOracle interface{ OnIdle(k *Kernel) }
 
-func RunComp(t *testing.T, in *RunInput) {}
+// exchange is one HTTP exchange as seen by the fetch goroutine, bound to the origin entry it caused.
+type exchange struct {
+	seed    string
+	actor   string
+	url     string // request URL text
+	key     string
+	retry   int
+	status  int
+	err     bool
+	hdr     http.Header
+	entry   *OriginEntry
+	isChild bool
+	depth   int64
+	step    int
+}
+
+// tracker derives, from the event stream, the facts several oracles share.
+type tracker struct {
+	r         *e2e
+	taken     map[string]int
+	takenIDs  []string
+	accepted  map[string]int
+	finSend   map[string]int
+	finRecv   map[string]int
+	discarded map[string]int
+	tracked   map[string]bool // by reactor state (stored .. deleted)
+	passes    map[string]int
+	waiting   map[string][]*exchange // key -> released attempts not yet bound to an origin request
+	current   map[string]*exchange   // fetch actor -> attempt in progress
+	bySeed    map[string][]*exchange
+	all       []*exchange
+	visits    map[string]int // fetch.begin per URL text
+	visitKind map[string][]string
+	seedOfRow map[string]string
+	outlinks  []outlinkRec
+	finStep   map[string]int
+}
+
+type outlinkRec struct {
+	seed, raw, via string
+	hops, pHops    int
+}
+
+func newTracker(r *e2e) *tracker {
+	return &tracker{r: r, taken: map[string]int{}, accepted: map[string]int{}, finSend: map[string]int{}, finRecv: map[string]int{},
+		discarded: map[string]int{}, tracked: map[string]bool{}, passes: map[string]int{}, waiting: map[string][]*exchange{},
+		current: map[string]*exchange{}, bySeed: map[string][]*exchange{}, visits: map[string]int{}, visitKind: map[string][]string{},
+		seedOfRow: map[string]string{}, finStep: map[string]int{}}
+}
+
+func (t *tracker) Name() string { return "tracker" }
+
+func reqKey(u string) string { return uriKey(u) }
+
+func (t *tracker) OnEvent(k *Kernel, ev *Event) {
+	switch ev.Point {
+	case "lq.sender.recv", "hq.sender.recv":
+		nm := ev.Args[0]
+		t.taken[nm]++
+		if t.taken[nm] == 1 {
+			t.takenIDs = append(t.takenIDs, nm)
+		}
+	case "lq.sender.discard", "hq.sender.discard":
+		t.discarded[seedArg(ev.Args[0])]++
+	case "reactor.insert.stored":
+		nm := seedArg(ev.Args[0])
+		t.accepted[nm]++
+		t.tracked[nm] = true
+	case "reactor.finish.deleted":
+		delete(t.tracked, seedArg(ev.Args[0]))
+	case "reactor.run.recv":
+		t.passes[seedArg(ev.Args[0])]++
+	case "fin.finish.send":
+		nm := seedArg(ev.Args[0])
+		t.finSend[nm]++
+		t.finStep[nm] = ev.Step
+	case "lq.fin.recv", "hq.fin.recv":
+		t.finRecv[seedArg(ev.Args[0])]++
+	case "fetch.begin":
+		seed, item := firstItem(ev.raw, 0), firstItem(ev.raw, 1)
+		if item != nil && item.GetURL() != nil {
+			u := item.GetURL().Raw
+			t.visits[u]++
+			kind := "seed"
+			if item.IsChild() {
+				kind = "asset"
+			} else if !item.IsSeed() {
+				kind = "redirect"
+			}
+			t.visitKind[u] = append(t.visitKind[u], kind+"@"+k.names.ItemSeed(seed))
+		}
+	case "release":
+		// "!sched release <actor>@fetch.attempt": that fetch is about to dial
+		what := ev.raw[0].(string)
+		if strings.HasSuffix(what, "@fetch.attempt") {
+			actor := strings.TrimSuffix(what, "@fetch.attempt")
+			if ex := t.current[actor]; ex != nil && ex.entry == nil {
+				t.waiting[ex.key] = append(t.waiting[ex.key], ex)
+			}
+		}
+	case "fetch.attempt":
+		seed, item := firstItem(ev.raw, 0), firstItem(ev.raw, 1)
+		if item == nil || item.GetURL() == nil || item.GetURL().GetRequest() == nil {
+			return
+		}
+		u := item.GetURL().GetRequest().URL.String()
+		retry, _ := ev.raw[2].(int)
+		ex := &exchange{seed: k.names.ItemSeed(seed), actor: ev.Actor, url: u, key: reqKey(u), retry: retry, isChild: item.IsChild(), depth: item.GetDepth(), step: ev.Step}
+		t.current[ev.Actor] = ex
+		t.bySeed[ex.seed] = append(t.bySeed[ex.seed], ex)
+		t.all = append(t.all, ex)
+	case "origin.request":
+		key := ev.Args[0]
+		att, _ := strconv.Atoi(ev.Args[1])
+		q := t.waiting[key]
+		if len(q) == 0 {
+			k.Probe("unbound-origin-request")
+			return
+		}
+		ex := q[0]
+		t.waiting[key] = q[1:]
+		for _, e := range t.r.net.Snapshot() {
+			if e.Key == key && e.Attempt == att {
+				ex.entry = e
+			}
+		}
+	case "fetch.response":
+		ex := t.current[ev.Actor]
+		if ex == nil {
+			return
+		}
+		// drop from waiting if the dial never produced a request
+		q := t.waiting[ex.key]
+		for i, x := range q {
+			if x == ex {
+				t.waiting[ex.key] = append(q[:i:i], q[i+1:]...)
+				break
+			}
+		}
+		for _, a := range ev.raw {
+			switch v := a.(type) {
+			case *http.Response:
+				if v != nil {
+					ex.status = v.StatusCode
+					ex.hdr = v.Header
+				}
+			case error:
+				if v != nil {
+					ex.err = true
+				}
+			}
+		}
+	case "post.outlink":
+		out, seed := firstItem(ev.raw, 0), firstItem(ev.raw, 1)
+		if out != nil && seed != nil {
+			t.outlinks = append(t.outlinks, outlinkRec{seed: k.names.ItemSeed(seed), raw: out.GetURL().Raw, via: out.GetSeedVia(), hops: out.GetURL().GetHops(), pHops: seed.GetURL().GetHops()})
+		}
+	}
+}
+func (t *tracker) OnQuiescent(k *Kernel) {}
+func (t *tracker) OnEnd(k *Kernel)       {}
+
+func seedArg(s string) string {
+	if i := strings.LastIndexByte(s, '['); i > 0 {
+		return s[:i]
+	}
+	return s
+}
+
+func (t *tracker) requestedBefore(key string, step int) bool {
+	for _, e := range t.r.net.Snapshot() {
+		if e.Key == key && e.Step <= step {
+			return true
+		}
+	}
+	return false
+}
+
+// ---------------------------------------------------------------- C01
+
+type oC01 struct {
+	r *e2e
+	t *tracker
+}
+
+func (o *oC01) Name() string { return "C01" }
+
+func nonTerminal(it *models.Item) []string {
+	var bad []string
+	it.Traverse(func(n *models.Item) {
+		switch n.GetStatus() {
+		case models.ItemFresh, models.ItemPreProcessed, models.ItemArchived:
+			// not yet fetched, or fetched but not yet post-processed (children unknown)
+			bad = append(bad, itemKey(n)+"["+n.GetStatus().String()+"]")
+		}
+	})
+	return bad
+}
+
+func (o *oC01) OnEvent(k *Kernel, ev *Event) {
+	switch ev.Point {
+	case "fin.finish.send":
+		it := firstItem(ev.raw, 0)
+		nm := k.names.ItemSeed(it)
+		if o.t.finSend[nm] > 1 {
+			k.Violate("C01", "finish-once", "finished-twice", fmt.Sprintf("seed %s reported finished %d times", nm, o.t.finSend[nm]))
+		}
+		if o.t.accepted[nm] == 0 {
+			k.Violate("C01", "finish-accepted", "finish-of-unaccepted", fmt.Sprintf("seed %s finished but never accepted by the reactor", nm))
+		}
+		if bad := nonTerminal(it); len(bad) > 0 {
+			k.Violate("C01", "tree-terminal", "finished-with-pending-node", fmt.Sprintf("seed %s finished while nodes are not terminal: %v", nm, bad))
+		}
+		// every planted URL of this seed's tree must have been requested before this instant
+		var miss []string
+		for key, res := range o.r.sc.Site {
+			if res.Seed == nm && res.Expect == scen.Must && !o.t.requestedBefore(key, ev.Step) {
+				miss = append(miss, key)
+			}
+		}
+		if len(miss) > 0 {
+			sort.Strings(miss)
+			k.Violate("C01", "tree-fetched", "finished-before-tree-fetched", fmt.Sprintf("seed %s finished but these tree URLs were never requested: %v", nm, miss))
+		}
+	case "lq.fin.recv", "hq.fin.recv":
+		nm := seedArg(ev.Args[0])
+		if o.t.finRecv[nm] > 1 {
+			k.Violate("C01", "finish-once", "finish-delivered-twice", fmt.Sprintf("queue received finish for %s %d times", nm, o.t.finRecv[nm]))
+		}
+		if o.t.taken[nm] == 0 {
+			k.Violate("C01", "finish-accepted", "finish-of-untaken", fmt.Sprintf("queue received finish for %s which it never handed out", nm))
+		}
+	}
+}
+
+func (o *oC01) OnQuiescent(k *Kernel) {
+	if !o.r.started || o.r.stopFired {
+		return
+	}
+	var table []string
+	func() {
+		defer func() { recover() }()
+		for _, id := range reactor.GetStateTable() {
+			nm, ok := k.names.Lookup(id)
+			if !ok {
+				nm = "?" + id
+			}
+			table = append(table, nm)
+		}
+	}()
+	sort.Strings(table)
+	var want []string
+	for nm := range o.t.tracked {
+		want = append(want, nm)
+	}
+	sort.Strings(want)
+	if strings.Join(table, "|") != strings.Join(want, "|") {
+		k.Violate("C01", "state-table", "table-mismatch", fmt.Sprintf("reactor table %v, accepted-and-unfinished %v", table, want))
+	}
+}
+
+func (o *oC01) OnIdle(k *Kernel) {
+	var pending []string
+	for _, nm := range o.t.takenIDs {
+		if o.t.finRecv[nm] == 0 {
+			pending = append(pending, nm)
+		}
+	}
+	if len(pending) > 0 {
+		k.Violate("C01", "never-dropped", "seed-never-finished", fmt.Sprintf("pipeline idle but seeds taken from the queue were never reported finished: %v (parked: %v)", pending, k.ParkedSummary()))
+	}
+	if len(o.t.tracked) > 0 {
+		k.Violate("C01", "state-table", "table-not-empty-at-idle", fmt.Sprintf("%v", o.t.tracked))
+	}
+	var miss []string
+	for key, res := range o.r.sc.Site {
+		if res.Expect == scen.MustEnd && !o.t.requestedBefore(key, 1<<30) {
+			miss = append(miss, key)
+		}
+	}
+	if len(miss) > 0 && len(pending) == 0 {
+		sort.Strings(miss)
+		k.Violate("C01", "tree-fetched", "shared-url-never-fetched", fmt.Sprintf("%v", miss))
+	}
+}
+func (o *oC01) OnEnd(k *Kernel) {}
+
+// ---------------------------------------------------------------- C02
+
+type oC02 struct {
+	r   *e2e
+	t   *tracker
+	idx *WarcIndex
+}
+
+func (o *oC02) Name() string { return "C02" }
+
+func (o *oC02) discarded(ex *exchange) bool {
+	for _, s := range o.r.sc.Cfg.DiscardStatus {
+		if ex.entry.Status == s {
+			return true
+		}
+	}
+	if ex.entry.Status == 403 && ex.hdr != nil && strings.EqualFold(ex.hdr.Get("cf-mitigated"), "challenge") {
+		return true
+	}
+	return false
+}
+
+func (o *oC02) OnEvent(k *Kernel, ev *Event) {
+	if ev.Point != "fin.finish.send" || o.r.sc.Cfg.AsyncWARC {
+		return
+	}
+	nm := k.names.ItemSeed(firstItem(ev.raw, 0))
+	o.idx.Scan()
+	for _, e := range o.idx.Errs {
+		k.Violate("C02", "warc-structure", "malformed-record", e)
+	}
+	o.idx.Errs = nil
+	for f, e := range o.idx.TailErr {
+		k.Violate("C02", "warc-structure", "incomplete-member-while-running", f+": "+e)
+	}
+	o.checkSeed(k, nm)
+}
+
+func (o *oC02) checkSeed(k *Kernel, nm string) {
+	for _, ex := range o.t.bySeed[nm] {
+		if ex.entry == nil || ex.err || ex.status == 0 {
+			continue // no response reached the crawler
+		}
+		if !ex.entry.Complete {
+			k.Probe("c02-relaxed-faulted-exchange")
+			continue
+		}
+		var req, resp, rev, wrong []*WarcRec
+		for _, rec := range o.idx.Recs {
+			if rec.TargetKey != ex.key {
+				continue
+			}
+			switch rec.Type {
+			case "request":
+				req = append(req, rec)
+			case "response":
+				if rec.PayloadSHA == ex.entry.BodySHA1 && rec.PayloadLen == ex.entry.BodyLen && rec.HTTPStatus == ex.entry.Status {
+					resp = append(resp, rec)
+				} else {
+					wrong = append(wrong, rec)
+				}
+			case "revisit":
+				if rec.DigestHdr == ex.entry.BodySHA1 {
+					rev = append(rev, rec)
+				} else {
+					wrong = append(wrong, rec)
+				}
+			}
+		}
+		if o.discarded(ex) {
+			k.Probe("c02-discarded-exchange")
+			if len(resp)+len(rev) > 0 {
+				k.Violate("C02", "discard", "discarded-response-written", fmt.Sprintf("seed %s: %s status %d is rejected by the discard policy but a record for it is in the WARC", nm, ex.url, ex.entry.Status))
+			}
+			continue
+		}
+		if len(resp)+len(rev) == 0 {
+			detail := fmt.Sprintf("seed %s finished; exchange %s (attempt %d, status %d, %d bytes, sha1 %s) has no matching response/revisit record", nm, ex.url, ex.entry.Attempt, ex.entry.Status, ex.entry.BodyLen, ex.entry.BodySHA1)
+			sig := "response-missing"
+			if len(wrong) > 0 {
+				// another attempt of the same URL may legitimately have different bytes; only flag when no attempt explains it
+				explained := true
+				for _, wr := range wrong {
+					if !o.explainedByOtherAttempt(wr, ex.key) {
+						explained = false
+						detail += fmt.Sprintf("; a record with different payload exists (status %d len %d sha1 %s)", wr.HTTPStatus, wr.PayloadLen, wr.PayloadSHA)
+					}
+				}
+				if !explained {
+					sig = "payload-mismatch"
+				}
+			}
+			k.Violate("C02", "captured", sig, detail)
+			continue
+		}
+		if len(req) == 0 {
+			k.Violate("C02", "captured", "request-record-missing", fmt.Sprintf("seed %s: %s has a response record but no request record", nm, ex.url))
+		}
+		for _, rv := range rev {
+			k.Probe("c02-revisit-record")
+			found := false
+			for _, rec := range o.idx.Recs {
+				if rec.Type == "response" && rec.PayloadSHA == rv.DigestHdr {
+					found = true
+				}
+			}
+			if !found {
+				k.Violate("C02", "captured", "revisit-without-original", fmt.Sprintf("%s: revisit record refers to payload %s that no response record holds", ex.url, rv.DigestHdr))
+			}
+		}
+		if len(resp) > 0 {
+			k.Probe("c02-response-verified")
+		}
+	}
+}
+
+func (o *oC02) explainedByOtherAttempt(rec *WarcRec, key string) bool {
+	for _, e := range o.r.net.Snapshot() {
+		if e.Key == key && (rec.Type == "revisit" && rec.DigestHdr == e.BodySHA1 || rec.PayloadSHA == e.BodySHA1 && rec.PayloadLen == e.BodyLen) {
+			return true
+		}
+		if e.Key == key && !e.Complete {
+			return true // a faulted attempt may leave a partial capture
+		}
+	}
+	return false
+}
+func (o *oC02) OnQuiescent(k *Kernel) {}
+func (o *oC02) OnEnd(k *Kernel) {
+	// every record in the files must be explained by some exchange (no foreign / corrupted payloads)
+	o.idx.Scan()
+	for _, e := range o.idx.Errs {
+		k.Violate("C02", "warc-structure", "malformed-record", e)
+	}
+	for _, rec := range o.idx.Recs {
+		if rec.Type != "response" || rec.Headers["x-body-error"] != "" {
+			continue
+		}
+		if !o.explainedByOtherAttempt(rec, rec.TargetKey) {
+			k.Violate("C02", "captured", "record-not-sent-by-origin", fmt.Sprintf("%s: response record (status %d len %d sha1 %s) matches nothing the origin sent for that URL", rec.TargetURI, rec.HTTPStatus, rec.PayloadLen, rec.PayloadSHA))
+		}
+	}
+	k.Probes["warc-records"] = len(o.idx.Recs)
+}
+
+// ---------------------------------------------------------------- C05
+
+type oC05 struct {
+	r    *e2e
+	regs []*regexp.Regexp
+}
+
+func (o *oC05) Name() string { return "C05" }
+
+func containsAny(s string, subs []string) bool {
+	for _, x := range subs {
+		if x != "" && strings.Contains(s, x) {
+			return true
+		}
+	}
+	return false
+}
+
+// inScope is the reference predicate written from the statement of C05.
+func (o *oC05) inScope(host, text string) (bool, string) {
+	cfg := o.r.sc.Cfg
+	h := host
+	if i := strings.LastIndexByte(h, ':'); i > 0 && !strings.Contains(h[i:], "]") {
+		h = h[:i]
+	}
+	if h == "localhost" || h == "127.0.0.1" || !strings.Contains(h, ".") {
+		return false, "host is localhost / loopback / dot-less"
+	}
+	excl := append([]string{"archive.org", "archive-it.org"}, cfg.ExcludeHosts...)
+	if containsAny(host, excl) {
+		return false, "host matches an excluded host"
+	}
+	if containsAny(text, cfg.ExcludeString) {
+		return false, "text matches --exclude-string"
+	}
+	for _, re := range o.regs {
+		if re.MatchString(text) {
+			return false, "text matches an exclusion regex"
+		}
+	}
+	if len(cfg.IncludeHosts) > 0 || len(cfg.IncludeString) > 0 {
+		if !containsAny(host, cfg.IncludeHosts) && !containsAny(text, cfg.IncludeString) {
+			return false, "matches none of the include filters"
+		}
+	}
+	return true, ""
+}
+
+func (o *oC05) OnEvent(k *Kernel, ev *Event) {
+	if ev.Point != "origin.request" {
+		return
+	}
+	key := ev.Args[0]
+	att, _ := strconv.Atoi(ev.Args[1])
+	for _, e := range o.r.net.Snapshot() {
+		if e.Key == key && e.Attempt == att {
+			text := "http://" + hostOnly2(e.Host) + e.URI
+			if ok, why := o.inScope(e.Host, text); !ok {
+				k.Violate("C05", "scope", "out-of-scope-request", fmt.Sprintf("request sent for %s: %s", text, why))
+			}
+			if e.Method != "GET" {
+				k.Probe("non-get-request")
+			}
+		}
+	}
+}
+func (o *oC05) OnQuiescent(k *Kernel) {}
+func (o *oC05) OnEnd(k *Kernel) {
+	o.r.net.mu.Lock()
+	dials := append([]DialEntry(nil), o.r.net.Dials...)
+	o.r.net.mu.Unlock()
+	for _, d := range dials {
+		h := hostOnly(d.Addr)
+		if strings.HasPrefix(h, "10.99.") {
+			continue // crawl HQ
+		}
+		if ok, why := o.inScope(h, "http://"+h+"/"); !ok && why != "matches none of the include filters" && !strings.HasPrefix(why, "text") {
+			k.Violate("C05", "scope", "out-of-scope-dial", fmt.Sprintf("connection opened to %s: %s", d.Addr, why))
+		}
+	}
+	for key, res := range o.r.sc.Site {
+		if res.Expect == scen.Never {
+			for _, e := range o.r.net.Snapshot() {
+				if e.Key == key {
+					prop := "C06"
+					if res.Tags["scope"] == "out" {
+						prop = "C05"
+					}
+					k.Violate(prop, "never", "forbidden-url-requested", fmt.Sprintf("%s was requested although the scenario forbids it (%v)", key, res.Tags))
+					break
+				}
+			}
+		}
+	}
+}
+
+// ---------------------------------------------------------------- C06
+
+type oC06 struct {
+	r *e2e
+	t *tracker
+}
+
+func (o *oC06) Name() string                 { return "C06" }
+func (o *oC06) OnEvent(k *Kernel, ev *Event) {}
+func (o *oC06) OnQuiescent(k *Kernel)        {}
+func (o *oC06) OnEnd(k *Kernel) {
+	cfg := o.r.sc.Cfg
+	// attempts per URL per visit
+	type vk struct{ actor, url string }
+	cnt := map[vk]int{}
+	maxRetrySeen := map[vk]int{}
+	for _, ex := range o.t.all {
+		v := vk{ex.actor, ex.url}
+		cnt[v]++
+		if ex.retry > maxRetrySeen[v] {
+			maxRetrySeen[v] = ex.retry
+		}
+	}
+	for v, m := range maxRetrySeen {
+		if m > cfg.MaxRetry {
+			k.Violate("C06", "retries", "too-many-attempts", fmt.Sprintf("%s attempted with retry index %d > max-retry %d", v.url, m, cfg.MaxRetry))
+		}
+	}
+	// origin side: requests per key bounded by visits * (max-retry+1)
+	reqs := map[string]int{}
+	for _, e := range o.r.net.Snapshot() {
+		reqs[e.Key]++
+	}
+	visits := map[string]int{}
+	for u, n := range o.t.visits {
+		visits[reqKey(u)] += n
+	}
+	for key, n := range reqs {
+		v := visits[key]
+		if v == 0 {
+			v = 1
+		}
+		if n > v*(cfg.MaxRetry+1) {
+			k.Violate("C06", "retries", "too-many-requests", fmt.Sprintf("%s requested %d times in %d visit(s), max-retry %d", key, n, v, cfg.MaxRetry))
+		}
+		if res := o.r.sc.Site[key]; res != nil {
+			if want := res.Tags["attempts"]; want != "" && v == 1 {
+				w, _ := strconv.Atoi(want)
+				if n != w {
+					k.Violate("C06", "retries", "attempt-count", fmt.Sprintf("%s always fails: expected exactly %d attempts (max-retry+1), saw %d", key, w, n))
+				}
+			}
+			if len(cfg.DomainsCrawl) == 0 && res.Level > 3 {
+				k.Violate("C06", "depth", "too-deep-asset", fmt.Sprintf("%s at asset level %d was requested", key, res.Level))
+			}
+			if c := res.Tags["chain"]; c != "" {
+				ci, _ := strconv.Atoi(c)
+				if ci > cfg.MaxRedirect {
+					k.Violate("C06", "redirects", "chain-too-long", fmt.Sprintf("%s is redirect #%d in its chain but max-redirect is %d", key, ci, cfg.MaxRedirect))
+				}
+			}
+		}
+	}
+	for nm, p := range o.t.passes {
+		bound := cfg.MaxRedirect + 6
+		if p > bound {
+			k.Violate("C06", "passes", "too-many-passes", fmt.Sprintf("seed %s went through the pipeline %d times (bound %d)", nm, p, bound))
+		}
+	}
+	for _, ol := range o.t.outlinks {
+		if len(cfg.DomainsCrawl) > 0 {
+			continue
+		}
+		if ol.pHops >= cfg.MaxHops {
+			k.Violate("C06", "hops", "outlink-beyond-max-hops", fmt.Sprintf("outlink %s queued from a page with hops %d, max-hops %d", ol.raw, ol.pHops, cfg.MaxHops))
+		}
+		if ol.hops != ol.pHops+1 {
+			k.Violate("C06", "hops", "outlink-hops-wrong", fmt.Sprintf("outlink %s carries hops %d, parent page has %d", ol.raw, ol.hops, ol.pHops))
+		}
+	}
+}
+
+// ---------------------------------------------------------------- assembly
+
+func oraclesFor(r *e2e) []Oracle {
+	t := newTracker(r)
+	r.tr = t
+	c05 := &oC05{r: r}
+	for _, rx := range r.sc.Cfg.ExclusionRegex {
+		if re, err := regexp.Compile(rx); err == nil {
+			c05.regs = append(c05.regs, re)
+		}
+	}
+	os := []Oracle{t,
+		&oC01{r: r, t: t},
+		&oC02{r: r, t: t, idx: NewWarcIndex(filepath.Join(r.jobPath, "warcs"))},
+		c05,
+		&oC06{r: r, t: t},
+	}
+	os = append(os, moreOracles(r, t)...)
+	return os
+}
